@@ -355,9 +355,8 @@ def trace_validate(ctx, n):
     for l in [l for l in lines if "default_differs" in l][:1]:
         ctx.disagree("trace:memory_maps():default", "memory_maps() and memory_maps(grouped=True) differ: %r"
                      % (l["default_differs"],), l)
-    lines = [l for l in lines if "got" in l]
     seen = set()
-    for l in lines:
+    for l in lines:     # a record on which the code raised still exercised its input class
         seen |= classes_of(l["inp"])
         if len(l["inp"]["maps"]) >= 8:
             seen.add("maps>=8")
@@ -365,6 +364,9 @@ def trace_validate(ctx, n):
     missing = (REQUIRED | {"maps>=8"}) - seen
     if missing:
         raise core.Machinery("random driver never produced input class(es) %s" % sorted(missing))
+    lines = [l for l in lines if "got" in l]
+    if not lines:
+        return          # every query raised: reported above
     d = tlc.scratch()
     tf = os.path.join(d, "trace.ndjson")
     with open(tf, "w") as f:
@@ -380,14 +382,16 @@ def trace_validate(ctx, n):
     ctx.cov.setdefault("replay", {})["trace-validation"] = {
         "records": len(lines), "max_mappings": max(len(l["inp"]["maps"]) for l in lines)}
     if r.violated:
-        rej = [int(p[1].strip()) for p in r.printed if p[0] == "REJECTED"]
-        for i in rej[:3]:
+        rej = []
+        for tag, rest in r.printed:
+            if tag == "REJECTED":
+                i, _, which = rest.partition(",")
+                rej.append((int(i.strip()), ",".join(sorted(tlc.parse_value(which.strip())))))
+        for i, which in rej[:3]:
             l = lines[i - 1]
-            # name the first answer that differs, by re-running the conformance comparison
-            # is not possible here (only symbolic answers are kept): report the record
-            ctx.disagree("trace:rejected:rollup-%s" % l["inp"]["rollup"],
-                         "TLC rejects a recorded answer: input %r (scale %d), code answered %r"
-                         % (l["inp"], l["scale"], l["got"]), l)
+            ctx.disagree("trace:rejected:%s:rollup-%s" % (which, l["inp"]["rollup"]),
+                         "TLC rejects the recorded answer(s) of %s: input %r (scale %d), code answered %r"
+                         % (which, l["inp"], l["scale"], l["got"]), l)
         if not rej:
             raise core.Machinery("trace validation failed without naming a record: %s" % r.violated)
     import shutil
